@@ -3,6 +3,7 @@ package checks
 import (
 	"fmt"
 	"math/rand"
+	"regexp"
 	"sort"
 	"strconv"
 	"strings"
@@ -28,6 +29,7 @@ type c03Item struct {
 	Fn    string  `json:"fn"`
 	Shape string  `json:"shape"` // star | bare | nested | expr | map
 	Arg   string  `json:"arg"`
+	Case  string  `json:"fn_case,omitempty"`
 	Arg2  string  `json:"arg2,omitempty"` // sumdiff: sum(Arg) - sum(Arg2), two different expression arguments in one item
 	P     float64 `json:"p,omitempty"`    // percentile
 	Nth   int     `json:"nth,omitempty"`  // nth_value
@@ -73,6 +75,8 @@ var c03OrderFree = map[string]bool{"count": true, "sum": true, "avg": true, "min
 	"stddevs": true, "var": true, "vars": true, "median": true, "percentile": true, "pspread": true, "sumdiff": true}
 
 var c03Exprs = []string{"v*2", "v+w", "v-w", "v*w", "v+1.5", "o.x+v", "o.x*2"}
+
+var c03FnName = regexp.MustCompile(`[a-z_]+\(`)
 
 func c03GenItem(fn string, n int, r *rand.Rand) *c03Item {
 	it := &c03Item{Fn: fn}
@@ -155,6 +159,17 @@ func c03GenItem(fn string, n int, r *rand.Rand) *c03Item {
 		}
 	default:
 		it.SQL = fmt.Sprintf("%s(%s)", fn, it.Arg)
+	}
+	if r.Intn(4) == 0 {
+		// function names are case-insensitive: FIRST_VALUE(v), Sum(v) ...
+		up := r.Intn(2) == 0
+		it.SQL = c03FnName.ReplaceAllStringFunc(it.SQL, func(m string) string {
+			if up {
+				return strings.ToUpper(m)
+			}
+			return strings.ToUpper(m[:1]) + m[1:]
+		})
+		it.Case = map[bool]string{true: "upper", false: "capitalised"}[up]
 	}
 	return it
 }
